@@ -213,7 +213,7 @@ def D.diff (d : D) (msg : String) : IO D := do
 /-- coarse class of a property failure; at most 3 cases per class are printed (all are counted) -/
 def failClass (prim msg : String) : String :=
   let has (p : String) := (msg.splitOn p).length > 1
-  prim ++ (if has "unbalanced-latency" then ":ul" else "") ++ (if has "inc&dec-at-limit" then ":lim" else "") ++ (if has "impl=err" then ":err" else "")
+  prim ++ (if has "unbalanced-latency" then ":ul" else "") ++ (if has "signed-difference-overflows" then ":ovf" else "") ++ (if has "inc&dec-at-limit" then ":lim" else "") ++ (if has "impl=err" then ":err" else "")
 
 def D.fail (d : D) (msg : String) : IO D := do
   let cls := failClass d.prim msg
@@ -337,6 +337,15 @@ def stepDivPipe (d : D) (toks : List String) : IO D := do
     return d
   | _, _ => d.diff s!"unparsed divpipe line {toks}"
 
+/-- extra classification of a failing vector (used for the finding signatures) -/
+def failNote (prim : String) (p : List Nat) (ins : List (Nat × Nat)) : String :=
+  match prim, p, ins with
+  | "mins", [w], [a, b] | "maxs", [w], [a, b] =>
+    let dlt := toInt w a.2 - toInt w b.2
+    let half : Int := (2 ^ (w - 1) : Nat)
+    if dlt < -half || dlt ≥ half || -dlt < -half || -dlt ≥ half then " signed-difference-overflows" else ""
+  | _, _, _ => ""
+
 def stepV (d : D) (toks : List String) : IO D := do
   let (ins, outs) := splitIO toks
   let insP := ins.map parseBits
@@ -354,7 +363,7 @@ def stepV (d : D) (toks : List String) : IO D := do
   let hasX := outs.any fun s => s.any (· == 'x')
   let relBad := !(r.rel outsP) && !(hasX && exp.all (·.isNone))
   if bad || (exp.length != outs.length && !exp.isEmpty) then
-    d ← d.fail s!"{inDesc} spec={exp.map fun e => e.getD "*"} impl={outs}"
+    d ← d.fail s!"{inDesc} spec={exp.map fun e => e.getD "*"} impl={outs}{failNote d.prim d.params insP}"
   else if relBad then
     d ← d.fail s!"{inDesc} relation-violated impl={outs}"
   return d
